@@ -27,7 +27,7 @@ def ref_text(h, hl):
     return h[:hl] + ("" if hl >= 64 else "*") + ".txt"
 
 
-def step(state, flags, answers, hl):
+def step(state, flags, answers, hl, ci=False):
     """Predicts {"refs": {file: prefix or None}, "store": {filename: persisted?}, "approved": set} after one session."""
     files = {k: v for k, v in state["files"].items() if k.startswith("test_") and k.endswith(".py")}
     store = {k: True for k in state["store"] if "-new." not in k}          # 1. start: prune -new
@@ -44,7 +44,7 @@ def step(state, flags, answers, hl):
             pending.add("create")
         elif not eq:
             pending.add("fix")
-    m = FM.resolve({"cli": list(flags), "answers": answers}, pending=[c for c in FM.CATS if c in pending])
+    m = FM.resolve({"cli": list(flags), "answers": answers, "ci": "CI" if ci else None}, pending=[c for c in FM.CATS if c in pending])
     A = m["approved"] if not m["error"] else set()
     refs = {}
     rewritten = set()
